@@ -15,6 +15,19 @@ pub fn mk(eos: &Model, t: f64, v: f64, n: &Array1<f64>) -> St {
 pub fn rho_max(eos: &Model, x: &Array1<f64>) -> f64 {
     eos.max_density(Some(&Moles::from_reduced(x.clone()))).unwrap().to_reduced()
 }
+/// density scale of a zoo entry: the model's own `max_density` unless the entry overrides it
+/// (FMTFunctional::compute_max_density is not a packing bound: it corresponds to a packing
+/// fraction of about 10, so the lattice would sit in the NaN region of the hard-sphere term)
+pub fn rho_scale(e: &Entry, x: &Array1<f64>) -> f64 {
+    match &e.hs_sigma {
+        Some(sig) => {
+            let xs = x / x.sum();
+            let v: f64 = xs.iter().zip(sig.iter()).map(|(x, s)| x * s * s * s).sum::<f64>() * std::f64::consts::PI / 6.0;
+            0.5 / v
+        }
+        None => rho_max(&e.eos, x),
+    }
+}
 
 pub fn t_factors(tier: Tier) -> Vec<f64> {
     match tier {
@@ -45,7 +58,7 @@ impl StateCase {
         self.entry.tref * self.tf
     }
     pub fn v(&self) -> f64 {
-        1.0 / (rho_max(&self.entry.eos, &self.x) * self.eta)
+        1.0 / (rho_scale(&self.entry, &self.x) * self.eta)
     }
     pub fn state(&self) -> St {
         mk(&self.entry.eos, self.t(), self.v(), &self.x)
